@@ -61,6 +61,14 @@ def main():
             lim = 250 / (float(pv) * math.log10(bb) if bb > 1 else 1)
             lm = max(-lim, min(lim, lm))
             cases.append({"op": "quantify", "l": dict(lu, t="level", m=fl(lm))}); meta.append((fam, k, base, pv, None, ur))
+    # several very small references of one unit, declared one after the other (1 pW, 1 fW, 1 aW, ...): each logarithmic unit keeps its own
+    for fam, unit, k in (("power", [[None, "watt", 1]], 1), ("pressure", [[None, "pascal", 1]], 2)):
+        for log, pre, base, pv in (LOGS[1], LOGS[0]):
+            for refm in (1e-12, 1e-15, 1e-18, 5e-13, 2e-5, 2e-9, 3e-10):
+                lu = {"log": log, "prefix": pre, "ref": {"m": fl(refm), "u": unit}}
+                for qm in (refm, refm * 100, 1.0):
+                    cases.append({"op": "level", "l": {"t": "qty", "m": fl(qm), "u": unit}, "r": lu}); meta.append((fam, k, base, pv, unit, unit))
+                cases.append({"op": "quantify", "l": dict(lu, t="level", m=fl(0.0))}); meta.append((fam, k, base, pv, None, unit))
     # monotonicity pairs
     mono = []
     for _ in range(60 if quick else 600):
